@@ -631,7 +631,7 @@ def work_items(tier):
     meshes = []
     if tier == "thorough":
         meshes += [("exh", m) for m in exhaustive_meshes(rs, 2, True)]
-        meshes += [("rnd", sample_mesh(rs, 6, 4)) for _ in range(14000)]
+        meshes += [("rnd", sample_mesh(rs, 6, 4)) for _ in range(12000)]
         meshes += [("mid", sample_mesh(rs, 8, 6)) for _ in range(1000)]
         meshes += [("big", big_mesh(rs)) for _ in range(1500)]
     else:
